@@ -107,3 +107,70 @@ pub fn clock() -> Option<u32> {
         None
     }
 }
+
+// ---------------------------------------------------------------------------
+// Lock-order recorder ("lockdep"): which lock class was requested while which
+// other classes were held by the same thread. A monitor looks for cycles.
+// ---------------------------------------------------------------------------
+
+static LOCK_EDGES: Mutex<BTreeMap<(&'static str, &'static str), u64>> = Mutex::new(BTreeMap::new());
+
+thread_local! {
+    static HELD_LOCK_CLASSES: std::cell::RefCell<Vec<&'static str>> = const { std::cell::RefCell::new(Vec::new()) };
+    static SEEN_LOCK_EDGES: std::cell::RefCell<Vec<(usize, usize)>> = const { std::cell::RefCell::new(Vec::new()) };
+}
+
+/// Call before blocking on a lock of class `class`: records an edge from
+/// every class currently held by this thread to `class`, then marks `class`
+/// as held (the request order is what matters for deadlock potential)
+pub fn lock_wanted(class: &'static str) {
+    HELD_LOCK_CLASSES.with(|held| {
+        let mut held = held.borrow_mut();
+
+        for from in held.iter() {
+            let key = (from.as_ptr() as usize, class.as_ptr() as usize);
+
+            let new = SEEN_LOCK_EDGES.with(|seen| {
+                let mut seen = seen.borrow_mut();
+
+                if seen.contains(&key) {
+                    false
+                } else {
+                    seen.push(key);
+                    true
+                }
+            });
+
+            if new {
+                *LOCK_EDGES
+                    .lock()
+                    .unwrap_or_else(|e| e.into_inner())
+                    .entry((*from, class))
+                    .or_insert(0) += 1;
+            }
+        }
+
+        held.push(class);
+    });
+}
+
+/// Call when a lock of class `class` is released by this thread
+pub fn lock_dropped(class: &'static str) {
+    HELD_LOCK_CLASSES.with(|held| {
+        let mut held = held.borrow_mut();
+
+        if let Some(i) = held.iter().rposition(|c| std::ptr::eq(*c, class)) {
+            held.remove(i);
+        }
+    });
+}
+
+/// Edges (held class, requested class, number of threads that produced it)
+pub fn lock_order_edges() -> Vec<(String, String, u64)> {
+    LOCK_EDGES
+        .lock()
+        .unwrap_or_else(|e| e.into_inner())
+        .iter()
+        .map(|((a, b), n)| (a.to_string(), b.to_string(), *n))
+        .collect()
+}
